@@ -1529,8 +1529,35 @@ def shrink_case(exe, model, case, pr, what):
 def classify(case, pr, r, prev):
     """narrow classifiers of the findings recorded in KNOWN_FINDINGS.txt; None = not a known root cause.  No open finding at
     present: the earlier ones (yank columns, empty change, sticky left, failed ex command, hll after deleting through the last
-    line, insert mode leaving another xleft, same-count change starting above the window) are repaired in /repo; their inputs are corpus cases that must pass."""
+    line, insert mode leaving another xleft, same-count change starting above the window) are repaired in /repo; their inputs are corpus cases that must pass.
+    CANDIDATE (found by the rtl stream, not yet in KNOWN_FINDINGS.txt): KF-STICKY-REORDER -- j / k with a remembered column beyond the
+    end of a line that holds a run shown in the other direction (td=+2, or right-to-left text inside a left-to-right line): the offset is
+    clamped to the LAST character in buffer order, the terminal cursor (ren_cursor of the remembered column) goes to the character at the
+    LARGEST visual position -- two different characters (`se td=2`, lines `abcdefghijkl`, `<Arabic word>`; keys `$ j`, then `x` deletes the
+    character at the other end of the word)."""
+    try:
+        if pr[0] != 'cmd' or pr[1] == 0 or not r.get('what', '').endswith('terminal cursor not on the cell of the cursor character'):
+            return None
+        last = bytes.fromhex(case['atoms'][pr[1] - 1]).lstrip(DIGITS)
+        if last not in (b'j', b'k'):
+            return None
+        REF.td = r.get('td', 0)
+        buf, xrow, xoff = r['buf'], r['xrow'], r['xoff']
+        line = buf[xrow]
+        lay = layout(line)
+        if visual_order(line) == list(range(len(line))) or xoff != len(line) - 1:
+            return None
+        (woff, h), _ = geometry(case['rows'], r.get('split'), r.get('act'))
+        sv = view(r['st'], woff, h)
+        for left in range(0, maxwidth(buf) + 1):
+            if cell_pos(buf, xrow, sv['c'], left, case['cols']) == max(p for _, p, _ in lay) and render(line, left, case['cols']) == sv['cp'][sv['r']]:
+                return 'KF-STICKY-REORDER'
+    except Exception:
+        return None
     return None
+
+
+CANDIDATE_FINDINGS = ('KF-STICKY-REORDER',)
 
 
 def report(res, exe, model, case, pr, r, prev=None):
@@ -1539,6 +1566,14 @@ def report(res, exe, model, case, pr, r, prev=None):
         small, spr = sub_case(case, pr)
         v = {'what': r['what'], 'input': {'case': small, 'keys': keys_repr(small)}, 'expected': r.get('expected'), 'observed': r.get('observed')}
         if not res.violation(v, kf=kf):
+            return False
+        if kf in CANDIDATE_FINDINGS:
+            # a genuine defect of the unchanged tree found by this module, described in design.d/C19.md, waiting to be listed
+            res.count('finding candidate ' + kf)
+            res.violations.pop()
+            ex = res.extra.setdefault('finding_candidates', [])
+            if len(ex) < 5:
+                ex.append(v)
             return False
     small, spr = shrink_case(exe, model, case, pr, r['what'])
     r2 = eval_probe(exe, model, small, spr)
